@@ -34,6 +34,20 @@ pub fn confirm(w: &Value) -> Value {
                 }
             }
         }
+        "adc" => {
+            let b = hex(w["bytes"].as_str().unwrap_or(""));
+            let real = guarded(|| det::alpha16::AdcV3Packet::try_from(&b[..]));
+            let spec = adc_ok(&b);
+            match real {
+                Err(p) => json!({"contradicts": true, "real": format!("panic: {p}"), "spec": format!("adc_ok={spec}")}),
+                Ok(r) => {
+                    let fields = r.as_ref().map(|p| adc_fields_ok(p, &b)).unwrap_or(true);
+                    json!({"contradicts": r.is_ok() != spec || !fields,
+                           "real": format!("{:?}", r.as_ref().map(|p| format!("Ok requested_samples={} waveform.len={}", p.requested_samples(), p.waveform().len())).map_err(|e| e.to_string())),
+                           "spec": format!("adc_ok={spec} fields_ok={fields}")})
+                }
+            }
+        }
         _ => json!({"error": format!("unknown op {op}")}),
     }
 }
